@@ -1,149 +1,93 @@
 import StorageModel.C03.LayeredInv
 /-
-  C03, enlarged model: the engine model refines the specification of LayeredSpec.lean.
+  C03, enlarged model: the engine model refines the specification of LayeredSpec.lean, for every
+  schema (base path, names, registered indexes, registration order).
 -/
 namespace StorageModel.C03.Layered
 open StorageModel StorageModel.C03
+open StorageModel.C03.Layered.Spec (vName vAlias vRoles)
 
-/-! ### `uniqueIndex.ProcessAfterUpdate` in a create context with a captured old value -/
+theorem heldByOther_iff (f : Ent → Bytes) (ents : Map Id Ent) (id : Id) (v : Bytes) :
+    Spec.heldByOther f ents id v = true ↔ HeldByOther f ents id v := by
+  unfold Spec.heldByOther HeldByOther
+  simp only [List.any_eq_true, Bool.and_eq_true, decide_eq_true_eq, Prod.exists, Map.mem_entries_iff]
+  constructor
+  · rintro ⟨i, e, hl, hne, hf⟩; exact ⟨i, e, hne, hl, hf⟩
+  · rintro ⟨i, e, hne, hl, hf⟩; exact ⟨i, e, hl, hne, hf⟩
 
-theorem uniqueAfter_true_err {E : Type} {f : E → Bytes} {ents : Map Id E} {idx : Map Bytes Id} {id : Id} {old e : E}
-    {nullable : Bool} {x : Err} (hui : UI f ents idx) (hold : ents.lookup id = some old)
-    (h : uniqueAfter true nullable (f old) (f e) id idx = .error x) :
-    (x = .nullNotAllowed ∧ f e = [] ∧ nullable = false) ∨ (x = .dup ∧ f e ≠ [] ∧ HeldByOther f ents id (f e)) := by
-  unfold uniqueAfter at h
-  simp only [Bool.not_true, Bool.false_and, Bool.false_eq_true, if_false, ne_eq] at h
-  have h2 := hui (f e)
-  unfold HeldByOther
-  by_cases ho : f old = []
-  · simp only [ho, not_true_eq_false, if_false] at h
-    split at h
-    · split at h
-      · next i hi => cases h; right; refine ⟨rfl, by assumption, ?_⟩; grind
-      · cases h
-    · split at h
-      · cases h; left; simp_all
-      · cases h
-  · simp only [ho, not_false_eq_true, if_true] at h
-    split at h
-    · split at h
-      · next i hi => cases h; right; refine ⟨rfl, by assumption, ?_⟩; simp only [Map.lookup_erase] at hi; grind
-      · cases h
-    · split at h
-      · cases h; left; simp_all
-      · cases h
+theorem mem_ite_singleton {p : Prop} [Decidable p] {a x : Err} : x ∈ (if p then [a] else []) ↔ p ∧ x = a := by
+  split <;> simp_all
 
-theorem uniqueAfter_true_okc {E : Type} {f : E → Bytes} {ents : Map Id E} {idx idx' : Map Bytes Id} {id : Id} {old e : E}
-    {nullable : Bool} (hui : UI f ents idx) (hold : ents.lookup id = some old)
-    (h : uniqueAfter true nullable (f old) (f e) id idx = .ok idx') :
-    (f e = [] ∧ nullable = true) ∨ (f e ≠ [] ∧ ¬ HeldByOther f ents id (f e)) := by
-  unfold uniqueAfter at h
-  simp only [Bool.not_true, Bool.false_and, Bool.false_eq_true, if_false, ne_eq] at h
-  have h2 := hui (f e)
-  unfold HeldByOther
-  by_cases ho : f old = []
-  · simp only [ho, not_true_eq_false, if_false] at h
-    split at h
-    · split at h
-      · cases h
-      · next hn =>
-        right; refine ⟨by assumption, ?_⟩
-        rintro ⟨i, e', _, hl, hf⟩
-        have := (h2 i).2 ⟨by assumption, e', hl, hf⟩
-        simp_all
-    · split at h
-      · cases h
-      · left; simp_all
-  · simp only [ho, not_false_eq_true, if_true] at h
-    split at h
-    · split at h
-      · cases h
-      · next hn =>
-        right; refine ⟨by assumption, ?_⟩
-        simp only [Map.lookup_erase] at hn
-        rintro ⟨i, e', hne, hl, hf⟩
-        have h5 := (h2 i).2 ⟨by assumption, e', hl, hf⟩
-        split at hn
-        · next heq =>
-          have h6 := (h2 id).2 ⟨by assumption, old, hold, heq.symm⟩
-          rw [h5] at h6; cases h6; exact hne rfl
-        · simp_all
-    · split at h
-      · cases h
-      · left; simp_all
+theorem mem_violations (sch : Schema) (ents : Map Id Ent) (id : Id) (e : Ent) (x : Err) :
+    x ∈ Spec.violations sch ents id e ↔ Listed sch ents id e x := by
+  unfold Spec.violations Listed
+  simp only [List.mem_append, mem_ite_singleton, heldByOther_iff]
+  constructor
+  · rintro (((⟨⟨h1, h2⟩, rfl⟩ | ⟨⟨h1, h2⟩, rfl⟩) | ⟨⟨h1, h2⟩, rfl⟩) | ⟨h1, rfl⟩)
+    · exact Or.inl ⟨rfl, h1, h2⟩
+    · exact Or.inr (Or.inl ⟨rfl, h1, h2⟩)
+    · exact Or.inr (Or.inr (Or.inl ⟨rfl, h1, h2⟩))
+    · exact Or.inr (Or.inr (Or.inr ⟨rfl, h1⟩))
+  · rintro (⟨rfl, h1, h2⟩ | ⟨rfl, h1, h2⟩ | ⟨rfl, h1, h2⟩ | ⟨rfl, h1⟩)
+    · exact Or.inl (Or.inl (Or.inl ⟨⟨h1, h2⟩, rfl⟩))
+    · exact Or.inl (Or.inl (Or.inr ⟨⟨h1, h2⟩, rfl⟩))
+    · exact Or.inl (Or.inr ⟨⟨h1, h2⟩, rfl⟩)
+    · exact Or.inr ⟨h1, rfl⟩
 
-/-- a child-store create over an existing plain parent entity against the spec's verdict -/
-theorem afterUpdate_recreate_spec {s : C03.State} {id : Id} {old e : Ent} (hi : C03.Inv s)
-    (hold : s.ents.lookup id = some old) :
-    match afterUpdate true (capture s id) { s with hasEnts := true, ents := s.ents.insert id e } id with
-    | .ok s' => Acceptable s.ents id e ∧ s'.hasEnts = true ∧ s'.ents = s.ents.insert id e
-    | .error x => x ∈ C03.Spec.violations s.ents id e := by
-  simp only [afterUpdate, capture, hold, bind, Except.bind, Map.lookup_insert, if_true, evalName, evalAlias,
-    evalRoles, pure, Except.pure]
-  cases hun : uniqueAfter true false old.name e.name id s.uName with
-  | error x =>
-    simp only
-    rcases uniqueAfter_true_err (f := (·.name)) hi.uName hold hun with ⟨rfl, h1, _⟩ | ⟨rfl, h1, h2⟩
-    · exact (mem_violations _ _ _ _).2 (Or.inl ⟨rfl, h1⟩)
-    · exact (mem_violations _ _ _ _).2 (Or.inr (Or.inl ⟨rfl, h1, h2⟩))
-  | ok un =>
-    simp only
-    have hnc := uniqueAfter_true_okc (f := (·.name)) hi.uName hold hun
-    have hne := uniqueAfter_true_nonempty hun
-    cases hua : uniqueAfter true true (old.alias.getD []) (e.alias.getD []) id s.uAlias with
-    | error x =>
-      simp only
-      rcases uniqueAfter_true_err (f := fun e => e.alias.getD []) hi.uAlias hold hua with ⟨_, _, h3⟩ | ⟨rfl, h1, h2⟩
-      · cases h3
-      · exact (mem_violations _ _ _ _).2 (Or.inr (Or.inr (Or.inl ⟨rfl, h1, h2⟩)))
-    | ok ua =>
-      simp only
-      have hac := uniqueAfter_true_okc (f := fun e => e.alias.getD []) hi.uAlias hold hua
-      cases hsr : setAfter old.roles e.roles id s.sRoles with
-      | error x =>
-        simp only
-        have := setAfter_err hsr (hi.rolesNonEmpty id old hold)
-        exact (mem_violations _ _ _ _).2 (Or.inr (Or.inr (Or.inr ⟨this.1, this.2⟩)))
-      | ok sr =>
-        simp only
-        have hre := setAfter_ok_nonempty hsr (hi.rolesNonEmpty id old hold)
-        refine ⟨⟨hne, ?_, ?_, hre⟩, by simp⟩
-        · rcases hnc with ⟨h, _⟩ | ⟨_, h⟩
-          · exact absurd h hne
-          · exact h
-        · rcases hac with ⟨h, _⟩ | ⟨_, h⟩
-          · exact Or.inl h
-          · exact Or.inr h
+theorem violations_nil_iff (sch : Schema) (ents : Map Id Ent) (id : Id) (e : Ent) :
+    Spec.violations sch ents id e = [] ↔ Acceptable sch ents id e := by
+  constructor
+  · intro h
+    have hm : ∀ x, ¬ Listed sch ents id e x := by
+      intro x hx
+      have := (mem_violations sch ents id e x).2 hx
+      rw [h] at this; cases this
+    refine ⟨?_, ?_, ?_, ?_⟩
+    · intro hr hn; exact hm _ (Or.inl ⟨rfl, hr, hn⟩)
+    · intro hh; exact hm _ (Or.inr (Or.inl ⟨rfl, hh.1, hh.2⟩))
+    · intro hh; exact hm _ (Or.inr (Or.inr (Or.inl ⟨rfl, hh.1, hh.2⟩)))
+    · intro hh; exact hm _ (Or.inr (Or.inr (Or.inr ⟨rfl, hh⟩)))
+  · intro ha
+    cases hv : Spec.violations sch ents id e with
+    | nil => rfl
+    | cons a l =>
+      have : Listed sch ents id e a := (mem_violations sch ents id e a).1 (by rw [hv]; simp)
+      rcases this with ⟨_, h1, h2⟩ | ⟨_, h1, h2⟩ | ⟨_, h1, h2⟩ | ⟨_, h1⟩
+      · exact absurd h2 (ha.1 h1)
+      · exact absurd ⟨h1, h2⟩ ha.2.1
+      · exact absurd ⟨h1, h2⟩ ha.2.2.1
+      · exact absurd h1 ha.2.2.2
 
 /-- abstraction: forget the indexes -/
-def abs (s : State) : Spec.SState := ⟨C03.abs s.base, s.ext⟩
+def abs (s : State) : Spec.SState := ⟨s.base.hasEnts, s.base.ents, s.ext⟩
 
 @[simp] theorem hasExt_abs (s : State) (id : Id) : Spec.hasExt (abs s) id = hasExt s id := rfl
 
-/-- the model's index protocol and the spec's `putBoth` agree once the protocol is characterised by
-    the spec's acceptance condition -/
-theorem put_agrees {s : State} {id : Id} {e : Ent} {hb : Bool} {x : Bytes} {r : Except Err C03.State}
+/-- the model's index protocol and the spec's `put` agree once the protocol is characterised by
+    the spec's acceptance condition (`afterUpdate_char`) -/
+theorem put_agrees {sch : Schema} {s : State} {id : Id} {e : Ent} {hb : Bool} {x : Option Bytes} {r : Except Err C03.State}
     (h : match r with
-      | .ok s' => Acceptable s.base.ents id e ∧ s'.hasEnts = hb ∧ s'.ents = s.base.ents.insert id e
-      | .error y => y ∈ C03.Spec.violations s.base.ents id e) :
+      | .ok b' => BInv sch b' ∧ b'.ents = s.base.ents.insert id e ∧ b'.hasEnts = hb ∧ Acceptable sch s.base.ents id e
+      | .error y => Listed sch s.base.ents id e y) :
     match (match r with
-        | .ok b => (Except.ok ⟨b, s.ext.insert id x⟩ : Except Err State)
-        | .error y => .error y), Spec.putBoth (abs s) id e hb x with
+        | .ok b => (Except.ok ⟨b, match x with | some y => s.ext.insert id y | none => s.ext⟩ : Except Err State)
+        | .error y => .error y), Spec.put sch (abs s) id e hb x with
     | .ok s', .ok t' => abs s' = t'
     | .error y, .error es => y ∈ es
     | _, _ => False := by
   cases r with
-  | ok s' =>
+  | ok b' =>
     simp only at h
-    have hv := (violations_nil_iff _ _ _).2 h.1
-    simp [Spec.putBoth, C03.Spec.put, abs, C03.abs, hv, h.2.1, h.2.2]
+    have hv := (violations_nil_iff _ _ _ _).2 h.2.2.2
+    cases x <;> simp [Spec.put, abs, hv, h.2.1, h.2.2.1]
   | error y =>
     simp only at h
-    cases hv : C03.Spec.violations s.base.ents id e with
-    | nil => rw [hv] at h; cases h
-    | cons a b => simp only [Spec.putBoth, C03.Spec.put, abs, C03.abs, hv]; simpa [hv] using h
+    have hm := (mem_violations _ _ _ _ _).2 h
+    cases hv : Spec.violations sch s.base.ents id e with
+    | nil => rw [hv] at hm; cases hm
+    | cons a b => simp only [Spec.put, abs, hv]; simpa [hv] using hm
 
-theorem updateChild_refines {sch : Schema} {s : State} (hi : Inv s) (id : Id) (v : Vals) (tag : Bytes)
+theorem updateChild_refines {sch : Schema} {s : State} (hi : Inv sch s) (id : Id) (v : Vals) (tag : Bytes)
     (chk : Option (List Bytes)) :
     match updateChild sch s id v tag chk, Spec.updateBoth sch (abs s) id v tag chk with
     | .ok s', .ok t' => abs s' = t'
@@ -155,31 +99,62 @@ theorem updateChild_refines {sch : Schema} {s : State} (hi : Inv s) (id : Id) (v
   · simp only [hid, if_false, hasExt_abs]
     by_cases hx : hasExt s id = true
     · simp only [hx, Bool.not_true, Bool.false_eq_true, if_false]
-      have hsome : (s.base.ents.lookup id).isSome = true := by
-        simp only [hasExt, Bool.and_eq_true] at hx; exact hx.1
+      show match (match s.base.ents.lookup id with
+          | none => (Except.error Err.notFound : Except Err State)
+          | some old => _), (match s.base.ents.lookup id with
+          | none => (Except.error [Err.notFound] : Except (List Err) Spec.SState)
+          | some old => _) with
+        | .ok s', .ok t' => abs s' = t'
+        | .error e, .error es => e ∈ es
+        | _, _ => False
       cases hold : s.base.ents.lookup id with
-      | none => simp [hold] at hsome
+      | none => simp
       | some old =>
-        have hspec := afterUpdate_update_spec (e := persist old v (resolveOpt sch chk)) hi.base hold
-        have hupd : C03.update s.base id v (resolveOpt sch chk) =
-            afterUpdate false (capture s.base id)
-              { s.base with ents := s.base.ents.insert id (persist old v (resolveOpt sch chk)) } id := by
-          simp [C03.update, hid, hold]
-        rw [hupd]
-        simp only [abs, C03.abs, hold]
-        exact put_agrees (s := s) (x := if tagSelected sch chk then tag else (s.ext.lookup id).getD []) hspec
+        simp only
+        exact put_agrees (s := s) (x := some (if tagSelected sch chk then tag else (s.ext.lookup id).getD []))
+          (updateBase_char v chk hi.base hid hold)
     · simp [hx]
 
-/-- a pass of `ProcessBeforeDelete` succeeds on an entity without an empty set value and touches
-    neither the entity table nor the bucket flag -/
-theorem pass_ok {b : C03.State} {e : Ent} (id : Id) (hr : [] ∉ e.roles) :
-    ∃ b', passBeforeDelete b e id = .ok b' ∧ b'.ents = b.ents ∧ b'.hasEnts = b.hasEnts := by
-  simp [passBeforeDelete, setBeforeDelete, evalRoles, hr]
+theorem updateParent_refines {sch : Schema} {s : State} (hi : Inv sch s) (id : Id) (v : Vals) (chk : Option (List Bytes)) :
+    match updateParent sch s id v chk,
+      (if id = [] then (Except.error [Err.other] : Except (List Err) Spec.SState)
+       else match (abs s).ents.lookup id with
+        | none => .error [.notFound]
+        | some old => Spec.put sch (abs s) id (persist old v (resolveOpt sch chk)) (abs s).hasEnts none) with
+    | .ok s', .ok t' => abs s' = t'
+    | .error e, .error es => e ∈ es
+    | _, _ => False := by
+  unfold updateParent
+  by_cases hid : id = []
+  · simp [hid]
+  · simp only [hid, if_false]
+    show match (match s.base.ents.lookup id with
+        | none => (Except.error Err.notFound : Except Err State)
+        | some old => _), (match s.base.ents.lookup id with
+        | none => (Except.error [Err.notFound] : Except (List Err) Spec.SState)
+        | some old => _) with
+      | .ok s', .ok t' => abs s' = t'
+      | .error e, .error es => e ∈ es
+      | _, _ => False
+    cases hold : s.base.ents.lookup id with
+    | none => simp
+    | some old =>
+      simp only
+      exact put_agrees (s := s) (x := none) (updateBase_char v chk hi.base hid hold)
+
+/-- a pass of `ProcessBeforeDelete` succeeds on an entity without an empty indexed set value and
+    touches neither the entity table nor the bucket flag -/
+theorem pass_ok {sch : Schema} {b : C03.State} {e : Ent} (id : Id) (hr : [] ∉ vRoles sch e) :
+    ∃ b', passBeforeDelete sch b e id = .ok b' ∧ b'.ents = b.ents ∧ b'.hasEnts = b.hasEnts := by
+  by_cases hreg : sch.regRoles = true
+  · have : [] ∉ e.roles := by simpa [vRoles, hreg] using hr
+    simp [passBeforeDelete, setBeforeDelete, evalRoles, hreg, this]
+  · simp [passBeforeDelete, hreg]
 
 /-- **Refinement.**  On a consistent state the model's operation and the spec's operation agree:
     both succeed with the same entity table (and child data), or both fail and the model's error
     is one of the errors the spec allows. -/
-theorem stepRaw_refines {sch : Schema} {s : State} (hi : Inv s) (op : Op) :
+theorem stepRaw_refines {sch : Schema} {s : State} (hi : Inv sch s) (op : Op) :
     match stepRaw sch s op, Spec.step sch (abs s) op with
     | .ok s', .ok t' => abs s' = t'
     | .error e, .error es => e ∈ es
@@ -188,21 +163,16 @@ theorem stepRaw_refines {sch : Schema} {s : State} (hi : Inv s) (op : Op) :
   | create via id v tag =>
     cases via with
     | parent =>
-      simp only [stepRaw, create, Spec.step]
-      have h := C03.stepRaw_refines hi.base (C03.Op.create id v)
-      simp only [C03.stepRaw] at h
-      show match (match C03.create s.base id v with
-          | .ok b => (Except.ok { s with base := b } : Except Err State)
-          | .error e => .error e),
-        (match C03.Spec.step (C03.abs s.base) (C03.Op.create id v) with
-          | .ok b => (Except.ok { abs s with base := b } : Except (List Err) Spec.SState)
-          | .error es => .error es) with
-        | .ok s', .ok t' => abs s' = t'
-        | .error e, .error es => e ∈ es
-        | _, _ => False
-      generalize C03.create s.base id v = r at h
-      generalize C03.Spec.step (C03.abs s.base) (C03.Op.create id v) = q at h
-      cases r <;> cases q <;> simp_all [abs]
+      simp only [stepRaw, create, createParent, Spec.step]
+      by_cases hid : id = []
+      · simp [hid]
+      · simp only [hid, if_false]
+        by_cases hex : (s.base.ents.lookup id).isSome = true
+        · simp [hex, abs]
+        · have hfresh : s.base.ents.lookup id = none := by simpa using hex
+          simp only [abs, hfresh, Option.isSome_none, Bool.false_eq_true, if_false]
+          exact put_agrees (s := s) (x := none)
+            (afterUpdate_char (persistCreate v) true hi.base hid (.fresh hfresh) (Or.inl rfl))
     | child =>
       simp only [stepRaw, create, createChild, Spec.step, hasExt_abs]
       by_cases hid : id = []
@@ -214,10 +184,12 @@ theorem stepRaw_refines {sch : Schema} {s : State} (hi : Inv s) (op : Op) :
           cases hold : s.base.ents.lookup id with
           | none =>
             simp only [Option.isSome_none, Bool.false_eq_true, if_false]
-            exact put_agrees (s := s) (x := tag) (afterUpdate_create_spec (e := persistCreate v) hi.base hold)
+            exact put_agrees (s := s) (x := some tag)
+              (afterUpdate_char (persistCreate v) true hi.base hid (.fresh hold) (Or.inl rfl))
           | some old =>
             simp only [Option.isSome_some, if_true]
-            exact put_agrees (s := s) (x := tag) (afterUpdate_recreate_spec (e := persistCreate v) hi.base hold)
+            exact put_agrees (s := s) (x := some tag)
+              (afterUpdate_char (persistCreate v) true hi.base hid (.recreate old hold) (Or.inl rfl))
   | update via id v tag chk =>
     cases via with
     | child => exact updateChild_refines hi id v tag chk
@@ -227,29 +199,16 @@ theorem stepRaw_refines {sch : Schema} {s : State} (hi : Inv s) (op : Op) :
       · simp only [hx, if_true]
         exact updateChild_refines hi id v _ chk
       · simp only [hx, Bool.false_eq_true, if_false]
-        have h := C03.stepRaw_refines hi.base (C03.Op.update id v (resolveOpt sch chk))
-        simp only [C03.stepRaw] at h
-        show match (match C03.update s.base id v (resolveOpt sch chk) with
-            | .ok b => (Except.ok { s with base := b } : Except Err State)
-            | .error e => .error e),
-          (match C03.Spec.step (C03.abs s.base) (C03.Op.update id v (resolveOpt sch chk)) with
-            | .ok b => (Except.ok { abs s with base := b } : Except (List Err) Spec.SState)
-            | .error es => .error es) with
-          | .ok s', .ok t' => abs s' = t'
-          | .error e, .error es => e ∈ es
-          | _, _ => False
-        generalize C03.update s.base id v (resolveOpt sch chk) = r at h
-        generalize C03.Spec.step (C03.abs s.base) (C03.Op.update id v (resolveOpt sch chk)) = q at h
-        cases r <;> cases q <;> simp_all [abs]
+        exact updateParent_refines hi id v chk
   | delete via id =>
-    simp only [stepRaw, delete, Spec.step, C03.Spec.step, abs, C03.abs]
+    simp only [stepRaw, delete, Spec.step, abs]
     by_cases hid : id = []
     · simp [hid]
     · simp only [hid, if_false]
       cases hold : s.base.ents.lookup id with
       | none => simp
       | some e =>
-        have hr : [] ∉ e.roles := hi.base.rolesNonEmpty id e hold
+        have hr : [] ∉ vRoles sch e := hi.base.rolesNonEmpty id e hold
         simp only
         by_cases hx : (s.ext.lookup id).isSome = true
         · obtain ⟨b1, hb1, he1, hh1⟩ := pass_ok (b := s.base) id hr
